@@ -226,6 +226,10 @@ func (x *Exec) freshAlloc(st *State) Term {
 	nx := x.frontier(st)
 	st.assume(And(Lt(Int(0), a), Eq(a, nx)))
 	st.next = Add(nx, Int(1))
+	// a freshly allocated object is its own container, at nesting depth 0
+	x.declareFun("objof", []Sort{SInt}, SInt)
+	x.declareFun("depthof", []Sort{SInt}, SInt)
+	st.assume(And(Eq(App("objof", SInt, a), a), Eq(App("depthof", SInt, a), Int(0))))
 	return a
 }
 
@@ -575,8 +579,8 @@ func (x *Exec) checkFrame(st *State, in *ssa.Return) {
 			if !ok || len(args) != 3 {
 				break
 			}
-			if !strings.HasPrefix(args[1], "alloc!") {
-				break
+			if !strings.Contains(args[1], "alloc!") {
+				break // (addresses derived from a local allocation, e.g. embedded structs, are local too)
 			}
 			cur = Term{args[0], cur.Sort}
 		}
